@@ -83,6 +83,10 @@ func C12(ctx *core.Ctx) {
 	ctx.Rule("C12.R3", "every transmission is dominated by the pass edge of its transport's guard; the reject edge returns REQUEST_TOO_LARGE", 5)
 	ctx.Rule("C12.R4", "response-side conversion: SendReply → trapError → APPLICATION_EXCEPTION_RESPONSE_TOO_LARGE → client RESPONSE_TOO_LARGE; HTTP 413 both ways; IsErrTooLarge knows both kinds", 9)
 	c12EncoderErrors(ctx, r)
+	ctx.Rule("C12.R7", "a rejected oversize request leaves nothing behind: the registration made before the size check is removed on every exit, so the same client and context keep working", 2)
+	for _, req := range r.Impl("FTransport", "Request") {
+		c01Request(ctx, r, req, "C12.R7", "")
+	}
 	ctx.Rule("C12.R5", "limit wiring: client buffer limit = transport's GetRequestSizeLimit/GetPublishSizeLimit; Reset restores the frame prefix through the guarded Write", 4)
 
 	cfg := &bounds.Config{IntBits: IntBits(), AssumeLenI32: true, Ideal: true}
